@@ -154,6 +154,9 @@ pub enum Op {
     CloneWithin { x: usize },
     CloneInto { x: usize, dest: usize },
     CloneMulti { xs: Vec<usize>, dest: usize },
+    /// `into_raw` followed by `from_raw` (the documented escape hatch) and `reserve`: nothing observable may change,
+    /// and the id bookkeeping `from_raw` rebuilds must be the one the following operations need
+    RawRoundTrip { dom: usize, reserve: usize },
 }
 
 fn op_name(op: &Op) -> &'static str {
@@ -165,6 +168,7 @@ fn op_name(op: &Op) -> &'static str {
         Op::CloneWithin { .. } => "clone_within",
         Op::CloneInto { .. } => "clone_into_external",
         Op::CloneMulti { .. } => "clone_multiple_into_external",
+        Op::RawRoundTrip { .. } => "into_raw+from_raw",
     }
 }
 
@@ -318,6 +322,9 @@ fn gen_op(ch: &mut dyn Chooser, w: &World, cfg: &Cfg) -> Option<Op> {
     let live: Vec<usize> = w.m.nodes.keys().copied().collect();
     let nonroot: Vec<usize> = live.iter().copied().filter(|i| !w.m.roots.contains(i)).collect();
     let kinds = 9;
+    if cfg.rich_props && !cfg.exhaustive && ch.choose(25) == 0 {
+        return Some(Op::RawRoundTrip { dom: ch.choose(cfg.ndoms), reserve: [0usize, 1, 64][ch.choose(3)] });
+    }
     for _ in 0..8 {
         let k = ch.choose(kinds);
         match k {
@@ -505,10 +512,13 @@ fn all_ops(w: &World, cfg: &Cfg) -> Vec<Op> {
 // ---------------------------------------------------------------- applying one operation
 
 fn real_uid(dom: &WeakDom, r: Ref) -> Option<UniqueId> {
-    match dom.get_by_ref(r)?.properties.get(&rbx_dom_weak::ustr("UniqueId")) {
+    let from_props = match dom.get_by_ref(r)?.properties.get(&rbx_dom_weak::ustr("UniqueId")) {
         Some(Variant::UniqueId(u)) => Some(*u),
         _ => None,
-    }
+    };
+    // the public accessor is documented to report the same thing
+    assert_eq!(dom.get_unique_id(r), from_props, "WeakDom::get_unique_id disagrees with the UniqueId property");
+    from_props
 }
 
 /// The UniqueId rule of C12 for a group of instances that just entered DOM `d`.
@@ -815,6 +825,14 @@ pub fn apply(w: &mut World, op: &Op, out: &mut Vec<V>) {
             let copies: Vec<usize> = pairs.iter().map(|(_, c)| *c).collect();
             let entering = entering_uids(&w.m, &copies);
             check_uid_rule(w, *dest, &entering, &s_before, out, opn);
+        }
+        Op::RawRoundTrip { dom, reserve } => {
+            let placeholder = WeakDom::new(InstanceBuilder::new("Placeholder"));
+            let old = std::mem::replace(&mut w.doms[*dom], placeholder);
+            let (root, map) = old.into_raw();
+            let mut rebuilt = WeakDom::from_raw(root, map);
+            rebuilt.reserve(*reserve);
+            w.doms[*dom] = rebuilt;
         }
     }
 }
@@ -1127,6 +1145,10 @@ pub fn run_history(ch: &mut dyn Chooser, cfg: &Cfg, rep: &mut Report, want: &str
         out.extend(o2);
         match res {
             Ok(()) => {}
+            Err(p) if p.msg.contains("get_unique_id disagrees") => {
+                out.push(V { prop: "C12", sig: format!("C12:get-unique-id-disagrees:{}", opn), what: format!("after {}: {}", opn, p.msg) });
+                break;
+            }
             Err(p) if p.file.contains("domops.rs") => {
                 // the panic is in this monitor's own bookkeeping, not in the library: it lost track of the DOM.
                 // After a deviation already reported for another property that is expected (model and DOM differ
